@@ -215,7 +215,7 @@ def resolve(vm, callee, subst):
                     out = {}
                     if unify(im.self_ty, selfty, set(im.generics), out) and _targs_ok(im, ci.targs, out):
                         return ('mir', f, bind_fn_generics(vm, f, out, ci.fnargs))
-        if ci.trait in mir.src.traits and (selfty.startswith(('dyn ', 'impl ')) or re.fullmatch(r'[A-Z]\w*', selfty) and selfty not in mir.src.structs and selfty not in mir.src.enums):
+        if ci.trait in mir.src.traits and (selfty.startswith(('dyn ', 'impl ')) or re.fullmatch(r'[A-Z]\w*', selfty) and selfty not in mir.src.structs and selfty not in mir.src.enums and not any(im.self_ty == selfty for im in mir.src.impls.values())):
             return ('dyn', ci)      # trait object / `impl Trait` argument / unbound generic: dispatch on the receiver's runtime type
         # trait default method defined in the crate
         for f in mir.by_name.get(ci.method, []):
